@@ -12,6 +12,7 @@ package main
 
 import (
 	"fmt"
+	"os"
 	"sort"
 	"strings"
 	"time"
@@ -38,6 +39,7 @@ type op struct {
 	epoch int  // sender incarnation (restarts increase it)
 	dup   bool // a second copy of a packet already sent
 	tail  bool // part of the closing in-order tail (not subject to the "delivered" oracle)
+	rs    bool // first packet of a new sender incarnation (restart)
 }
 
 type hist struct {
@@ -436,7 +438,10 @@ func oracle(ctx *hx.Ctx, idx int, h *hist, steps []step, cl string) {
 		}
 	}
 	// restart clause: after a restart the (B+1)-th and later packets of the new consecutive stream are tracked
-	for _, at := range h.restartAt {
+	for at := range h.ops {
+		if !h.ops[at].rs {
+			continue
+		}
 		n := 0
 		for i := at; i < len(h.ops) && i < len(steps); i++ {
 			p := h.ops[i]
@@ -600,7 +605,7 @@ func makeHist(r *hx.Rand, kind int, start uint16, bs int) *hist {
 		h.restartAt = append(h.restartAt, len(g.ops))
 		for i := 0; i < 2*B+4; i++ {
 			g.next++
-			g.ops = append(g.ops, op{kind: 1, seq: ns + uint16(i), id: g.next, idx: i, epoch: 1, tail: true})
+			g.ops = append(g.ops, op{kind: 1, seq: ns + uint16(i), id: g.next, idx: i, epoch: 1, tail: true, rs: i == 0})
 		}
 	case hMixed:
 		g.perturb(start, 0, 0, n, hx.Pick(r, 0, 1, B-1, B, 2*B), r.Range(0, 10), hx.Pick(r, 1, B, 2*B), r.Range(0, 15))
@@ -660,6 +665,28 @@ func corpusF12(start uint16) *hist {
 	return &hist{unrel: true, bs: 4, ops: g.ops, gen: "corpus F12"}
 }
 
+// more than 2^24-1 losses: the 24-bit clamp of TotalLost and the clamp inside FractionLost.
+// reliable: 600 repeats of one sequence number (each counts 65535 lost); unreliable B=1: 1200 jumps of +32768
+// (each flush counts 32767 lost).
+func corpusClamp(unrel bool) *hist {
+	g := &gen{}
+	n, step, every := 600, uint16(0), 290
+	if unrel {
+		n, step, every = 1200, 32768, 580
+	}
+	s := uint16(7)
+	for i := 0; i < n; i++ {
+		g.next++
+		g.ops = append(g.ops, op{kind: 1, seq: s, id: g.next, idx: -1})
+		s += step
+		if i%every == every-1 {
+			g.ops = append(g.ops, op{kind: 2, idx: -1})
+		}
+	}
+	g.ops = append(g.ops, op{kind: 3, idx: -1}, op{kind: 2, idx: -1})
+	return &hist{unrel: unrel, bs: 1, ops: g.ops, gen: "corpus 24-bit clamp"}
+}
+
 // B = 32768: int16(len(buffer)) = -32768, so "relPos >= int16(len)" holds for every forward packet.
 func corpusBigB() *hist {
 	g := &gen{}
@@ -670,9 +697,34 @@ func corpusBigB() *hist {
 	return &hist{unrel: true, bs: 32768, ops: g.ops, gen: "corpus B=32768"}
 }
 
+// runGuarded runs the history with a watchdog: reorder's scan loop has no bound of its own, so a broken
+// invariant shows up as a goroutine that never returns. That is reported as an observation (78), the
+// run is finished in an orderly way and the process exits (the spinning goroutine cannot be stopped).
+func runGuarded(ctx *hx.Ctx, h *hist, cl string) (string, []step) {
+	type res struct {
+		il    string
+		steps []step
+	}
+	ch := make(chan res, 1)
+	go func() {
+		il, steps, _ := runImpl(h)
+		ch <- res{il, steps}
+	}()
+	select {
+	case r := <-ch:
+		return r.il, r.steps
+	case <-time.After(20 * time.Second):
+		idx := ctx.Corr(cl, "78")
+		ctx.Failf(idx, "endless-loop", cl, "ProcessPacket2 did not return within 20s (reorder's scan loop found no empty slot)")
+		ctx.Finish()
+		os.Exit(0)
+	}
+	return "", nil
+}
+
 func evalHist(ctx *hx.Ctx, h *hist) {
 	cl := h.caseLine()
-	il, steps, _ := runImpl(h)
+	il, steps := runGuarded(ctx, h, cl)
 	idx := ctx.Corr(cl, il)
 	ctx.Eval()
 	ctx.Kind(fmt.Sprintf("%s B=%d", h.gen, h.B()))
@@ -735,6 +787,8 @@ func main() {
 		evalHist(ctx, corpusF12(s))
 	}
 	evalBigB(ctx)
+	evalHist(ctx, corpusClamp(false))
+	evalHist(ctx, corpusClamp(true))
 	evalHist(ctx, makeHist(r, hDisplacedLoss, 65000, 1024))
 
 	starts := []uint16{}
